@@ -7,14 +7,14 @@ import props as P
 V = os.path.dirname(os.path.dirname(os.path.abspath(__file__)))
 
 TEXT = {
- 'C01': ('Lean theorems about the PEG semantics (determinism, soundness of the reference interpreter) and — as they are completed — the refinement theorem R (compile correctness of the default emission); tied to /repo by T-emit (whole emitted programs equal the model generator\'s IR) and T-run (compiled parsers vs model vs spec on every rule as entry).',
+ 'C01': ('refinement theorem R (compile correctness of the emission, by induction on PEG derivations, memo table included) and its closure C01_generated_parser: for every linked grammar passing decidable checks, every rule as entry and every input, each run of the function the model generator emits returns true exactly when the PEG semantics matches a prefix and stops at its end, never panics; plus determinism of the semantics and soundness of the reference interpreter; tied to /repo by T-emit (whole emitted programs equal the model generator\'s IR) and T-run (compiled parsers vs model vs spec on every rule as entry).',
          'Lean model of Compile/runtime tied by differential execution; Go statement semantics, go/parser, go/printer trusted.'),
  'C02': ('-inline: same theorems and ties as C01 on the -inline emission, plus real-vs-real comparison with the default parser of the same grammar. -switch: tie pending the optimiser model.',
          'as C01'),
  'C03': ('token stream = post-order of the derivation forest: spec-level theorems + T-run comparison of Tokens() with postorder of the evalF forest (rune offsets, multi-byte inputs).', 'as C01'),
  'C04': ('Execute() = left-to-right action trace with the last completed capture: proved for all forests (C04Exec) over the token list; tied by T-run probe-action traces.', 'as C01; user action code is modelled as opaque trace events'),
  'C05': ('AST()/printers = pruned derivation tree: proved for all well-nested forests (C05Ast), incl. equal spans and zero-width tokens; tied by T-run (SprintSyntaxTree, up/next walk).', 'as C01; strconv.Quote is a parameter of the model (compared as strings in the tie)'),
- 'C06': ('memoisation invisible: every case run with memo on and off (real vs real, vs model with the memo table, vs spec).', 'as C01'),
+ 'C06': ('R is proved with the memo table present (invariant MemoOK + absorption lemma): C06_memo_invisible — the same emitted parser with memoisation and with DisableMemoize returns the same verdict, position, tokens and error token; C06_replay_exact — a hit restores exactly what a re-run would; tie: every case run with memo on and off (real vs real, vs model with the memo table, vs spec).', 'as C01'),
  'C07': ('-noast: verdict equal to the default parser and to the spec; inline-action trace equal to the spec\'s reach-order trace with last capture.', 'as C01'),
  'C08': ('hygiene theorems about the emission (labels unique per function, dry and real pass number labels identically and print the same jumps without -switch) + the implementation-side validity oracle on every emitted file of both sweeps (go/parser inside peg, go build = parse + type-check, gofmt idempotence) under all eight option sets, plus streams the generator cannot produce (300/1200(+) rules, imports incl. alias/grouped/duplicate of a runtime import, header comments, control and non-ASCII literals, comments and braces inside actions).',
          'Go type checker, go/parser, go/printer and gofmt are oracles of the tie, not modelled; no mechanised Go semantics is available offline.'),
@@ -32,6 +32,10 @@ TEXT = {
          'the byte-for-byte comparison is a finite computation that is executed, not proved; -noast front ends are not considered (a front end needs Execute).'),
  'C18': ('CLI model transcribed from main.go over a finite scenario table (18432 rows); exit 0 => complete parser at the requested destination, errors => non-zero + message, flags irrelevant, all by kernel decision over the whole table; tie: every abstract scenario realised by >= 3 concrete runs of the built binary (permission faults via unprivileged uid, /dev/full, injected close errors).',
          'OS behaviour enters as abstract scenario classes; their concrete realisation is part of the tie.'),
+ 'C10': ('model front end = PEG semantics (evalF, proved sound) of the grammar peg.peg itself — regenerated into Lean from /repo/peg.peg on every run — composed with a Lean transcription of the tree builder; theorems re-checked by the kernel against the regenerated grammar: complete escape table (474 spellings), representative evaluations of every construct, precedence chain, and universal builder lemmas (list flattening, no panic on balanced call sequences, hex/octal decoding for all digit strings, model soundness w.r.t. Eval); tie T-front: every spelling variant of generated abstract grammars REAL vs denote (spec) vs model, plus a malformed stream (reject or agree with the model, never panic).',
+         'the universal round trip frontEnd(render a sp) = denote a is tested, not proved; strings.ToLower/ToUpper on non-ASCII runes outside the model; documentation deviations are recorded as known findings F-C10-*.'),
+ 'C15': ('Lean transcription of checkRecursion/countRules/link diagnostics and an independent specification (Reachable, Undefined, LeftRec via first references and must-consume); for all grammars: duplicate diagnosed iff names repeat, "defined but not used" iff unreachable, "used but not defined" iff undefined (PegText excepted — known finding), left recursion reported iff some rule is left-recursive (LeftRec ⊆ warned ⊆ LeftRecW per rule), -strict fails iff any diagnostic; tie T-diag: ordered warning lines, strict failure and duplicate error of the real generator vs model, warned name sets vs an independent evaluation of the spec, on families + random + exhaustive small grammars.',
+         'must-consume is the code\'s conservative syntactic notion (hence "possible" left recursion); rule names colliding with generated names (Action<k>, PegText) are outside the property.'),
  'C11': ('error token = first furthest non-empty attempted token (tie vs spec fold over attempted tokens); translatePositions/Error() proved equal to the 1-based line/column specification for all buffers and offsets (C11Err), no panic; tied by T-err on the current template text.', 'as C01'),
 }
 
